@@ -113,6 +113,12 @@ def check_parts(pid, parts, tier, seed, replay=None, main=None):
     if not proof_ok:
         notes.append('proof audit failed: build_ok=%s coqc_ok=%s discharged=%d/%d hygiene=%s' % (
             ok_build, proof['ok'], proof['discharged'], len(proof['theorems']), bad))
+    if tier == 'thorough' and proof_ok and not replay:
+        okc, chk = core.coqchk(pid)
+        proof['coqchk'] = chk
+        if not okc:
+            proof_ok = False
+            notes.append('coqchk failed: ' + chk['tail'][-400:])
 
     # 2. executables
     okr, logr = core.build_runner()
@@ -348,6 +354,8 @@ def finish(spec, tier, seed, t0, proof, bad, cov, nviol, notes, known_hits=(), p
         'correspondence check: harness/drv_%s.c, runner/, lib/ (hand-written), gcc -fsanitize=address,undefined' % spec.driver,
     ] + list(spec.trusted)
     cov['notes'] = notes
+    if 'coqchk' in proof:
+        cov['coqchk'] = proof['coqchk']
     cov['known_findings_hit'] = [k for k, _, _ in known_hits]
     ev = dict(property_id=pid, tier=tier, seed=seed, level='proof', coverage=cov,
               assumptions=list(spec.assumptions_text), wall_s=round(time.time() - t0, 2), violations=nviol)
